@@ -1,12 +1,157 @@
-//! C14 — ops evaluated on the real code and the generator of their inputs.
-#![allow(unused_imports, dead_code, clippy::all)]
+//! C14 — deterministic generators on the real code.
+//!
+//!   gen_<name> <repr> <n>          name ∈ empty complete circuit cycle path star wheel
+//!   gen_biclique <repr> <m> <n>
+//!   gen_trivial|gen_claw|gen_utility <repr>
+//!       =>  [order [vertices] [arcs]]  |  panic
+//!
+//! `repr` ∈ al am mx el (all generators) and wu wi (`Empty` only: `gen_empty`, `gen_trivial`).
+#![allow(clippy::all)]
 
-use crate::graphs::{self, Desc};
+use crate::graphs;
 use crate::rng::Rng;
 use crate::value::V;
+use graaf::{
+    AdjacencyList, AdjacencyListWeighted, AdjacencyMap, AdjacencyMatrix, Biclique, Circuit,
+    Complete, Cycle, EdgeList, Empty, Path, Star, Wheel,
+};
 
-pub fn eval(_op: &str, _args: &[V]) -> Option<Vec<V>> {
-    None
+/// `$f` applied with `D` = the unweighted representation named by `$repr`.
+macro_rules! by_repr {
+    ($repr:expr, $D:ident => $body:expr) => {
+        match $repr {
+            "al" => { type $D = AdjacencyList; Some(vec![graphs::observe(&$body)]) }
+            "am" => { type $D = AdjacencyMap; Some(vec![graphs::observe(&$body)]) }
+            "mx" => { type $D = AdjacencyMatrix; Some(vec![graphs::observe(&$body)]) }
+            "el" => { type $D = EdgeList; Some(vec![graphs::observe(&$body)]) }
+            _ => None,
+        }
+    };
 }
 
-pub fn gen(_rng: &mut Rng, _thorough: bool, _emit: &mut dyn FnMut(String)) {}
+pub fn eval(op: &str, args: &[V]) -> Option<Vec<V>> {
+    let name = op.strip_prefix("gen_")?;
+    match name {
+        "empty" | "complete" | "circuit" | "cycle" | "path" | "star" | "wheel" => {
+            let [repr, n] = args else { return None };
+            let repr = repr.as_atom()?;
+            let n = n.as_usize()?;
+            if repr == "wu" || repr == "wi" {
+                if name != "empty" {
+                    return None;
+                }
+                return Some(vec![if repr == "wu" {
+                    graphs::observe(&AdjacencyListWeighted::<usize>::empty(n))
+                } else {
+                    graphs::observe(&AdjacencyListWeighted::<isize>::empty(n))
+                }]);
+            }
+            match name {
+                "empty" => by_repr!(repr, D => D::empty(n)),
+                "complete" => by_repr!(repr, D => D::complete(n)),
+                "circuit" => by_repr!(repr, D => D::circuit(n)),
+                "cycle" => by_repr!(repr, D => D::cycle(n)),
+                "path" => by_repr!(repr, D => D::path(n)),
+                "star" => by_repr!(repr, D => D::star(n)),
+                _ => by_repr!(repr, D => D::wheel(n)),
+            }
+        }
+        "biclique" => {
+            let [repr, m, n] = args else { return None };
+            let (m, n) = (m.as_usize()?, n.as_usize()?);
+            by_repr!(repr.as_atom()?, D => D::biclique(m, n))
+        }
+        "trivial" | "claw" | "utility" => {
+            let [repr] = args else { return None };
+            let repr = repr.as_atom()?;
+            if repr == "wu" || repr == "wi" {
+                if name != "trivial" {
+                    return None;
+                }
+                return Some(vec![if repr == "wu" {
+                    graphs::observe(&AdjacencyListWeighted::<usize>::trivial())
+                } else {
+                    graphs::observe(&AdjacencyListWeighted::<isize>::trivial())
+                }]);
+            }
+            match name {
+                "trivial" => by_repr!(repr, D => D::trivial()),
+                "claw" => by_repr!(repr, D => D::claw()),
+                _ => by_repr!(repr, D => D::utility()),
+            }
+        }
+        _ => None,
+    }
+}
+
+const ONE_PARAM: [&str; 7] = ["empty", "complete", "circuit", "cycle", "path", "star", "wheel"];
+
+pub fn gen(rng: &mut Rng, thorough: bool, emit: &mut dyn FnMut(String)) {
+    // (0) the parameterless defaults, every representation
+    for repr in graphs::UNWEIGHTED {
+        for name in ["trivial", "claw", "utility"] {
+            emit(format!("gen_{name} {repr}"));
+        }
+    }
+    emit("gen_trivial wu".to_string());
+    emit("gen_trivial wi".to_string());
+
+    // (1) orders: every order 0..=80 (0 = inadmissible; wheel also 1..3) + 20 random in
+    //     81..=200 (quick) / every order 0..=200 (thorough)
+    let mut orders: Vec<usize> = if thorough { (0..=200).collect() } else { (0..=80).collect() };
+    if !thorough {
+        let mut pool: Vec<usize> = (81..=200).collect();
+        rng.shuffle(&mut pool);
+        pool.truncate(20);
+        // always: the two 64-bit word boundaries of a row and the largest order
+        for must in [127, 128, 129, 200] {
+            if !pool.contains(&must) {
+                pool.push(must);
+            }
+        }
+        pool.sort_unstable();
+        orders.extend(pool);
+    }
+    for &n in &orders {
+        for repr in graphs::UNWEIGHTED {
+            for name in ONE_PARAM {
+                emit(format!("gen_{name} {repr} {n}"));
+            }
+        }
+        if n <= 20 || n % 16 == 0 {
+            emit(format!("gen_empty wu {n}"));
+            emit(format!("gen_empty wi {n}"));
+        }
+    }
+
+    // (2) biclique: all (m, n) in 0..=L x 0..=L (0 = inadmissible), plus random pairs up to 40 x 40
+    let l = if thorough { 40 } else { 12 };
+    for m in 0..=l {
+        for n in 0..=l {
+            for repr in graphs::UNWEIGHTED {
+                emit(format!("gen_biclique {repr} {m} {n}"));
+            }
+        }
+    }
+    // more inadmissible pairs (cheap: they panic)
+    for k in (l + 1)..=40 {
+        for repr in graphs::UNWEIGHTED {
+            emit(format!("gen_biclique {repr} 0 {k}"));
+            emit(format!("gen_biclique {repr} {k} 0"));
+        }
+    }
+    if !thorough {
+        for _ in 0..60 {
+            let m = 1 + rng.below(40);
+            let n = 1 + rng.below(40);
+            for repr in graphs::UNWEIGHTED {
+                emit(format!("gen_biclique {repr} {m} {n}"));
+            }
+        }
+        for repr in graphs::UNWEIGHTED {
+            emit(format!("gen_biclique {repr} 40 40"));
+            emit(format!("gen_biclique {repr} 1 40"));
+            emit(format!("gen_biclique {repr} 40 1"));
+        }
+    }
+}
